@@ -63,7 +63,13 @@ fn texts(ctx: &mut Ctx, corpus: &Corpus) {
         };
         let g = osu::gen_map(&mut r, &cfg);
         let eol = if r.chance(1, 3) { "\r\n" } else { "\n" };
-        work.push((i, g.text_with(eol, r.chance(3, 4))));
+        let mut text = g.text_with(eol, r.chance(3, 4));
+        if ctx.leg != "miri" && ctx.leg != "asan" && r.chance(1, 250) {
+            // one very long line (its UTF-16 form is twice, its CJK UTF-8 form three times as many bytes)
+            let unit = if r.chance(1, 2) { "tag " } else { "\u{97f3}\u{697d} " };
+            text.push_str(&format!("{eol}[Metadata]{eol}Tags:{}{eol}Source: after the long line{eol}", unit.repeat(9_000 + r.below(12_000))));
+        }
+        work.push((i, text));
         if work.len() >= 64 {
             for (idx, t) in work.drain(..) {
                 cross_encoding(ctx, idx, &t);
